@@ -277,7 +277,7 @@ class MultiNestOptimizer(Optimizer):
             modes_weights.append(chains_weights[0])
             modes = [0]
 
-        modes_weights = np.asarray(modes_weights)
+        modes_weights = [np.asarray(w) for w in modes_weights]
         for nmode in range(len(modes)):
             self.debug('Nmode: {}'.format(nmode))
 
